@@ -924,6 +924,12 @@ func (b *B) FirstHitScan(rule, construct, where string, fc *FC, hdr *ssa.BasicBl
 	} else {
 		exhausted = s.Cmp("<=", sp.N, e)
 	}
+	// the search stays inside the sequence: it cannot go round again with the indices exhausted
+	// (`e <= N` for `e < N` reads one element past the end)
+	if sp.Pair == 0 && X.EvalCond(exhausted, []Assumption{{Cond: cont, True: true}}) != False {
+		r.Fail(rule, construct, where, "the loop can go on with the indices exhausted (continues while "+clip(cont.String(), 160)+"): an element outside the sequence is read")
+		return false
+	}
 	for _, ee := range exits {
 		v := fc.gatedReturns(ee.To, 0, nil)
 		if v == nil {
@@ -3347,9 +3353,21 @@ func (x *Extractor) ExpandCalls(r *RF) *RF {
 		}
 		sub := x.newFC(f, bind, nil)
 		sub.bindArgs = args
+		// a function that fills memory in a loop is not its gated return value: the value of
+		// `res := make([]float64, n); for … { res[i] = … }; return res` would be the bare
+		// allocation, the same for any arguments with equal n (found by the mutation sweep:
+		// Linspace(f/sp, …) compared equal to Linspace(f*sp, …))
+		if len(sub.Ctx.Loops()) > 0 {
+			return nil
+		}
 		v := sub.gatedReturns(f.Blocks[0], 0, nil)
 		if v == nil || x.S.isBottom(v) {
 			return nil
+		}
+		for _, va := range v.Atoms(true) {
+			if strings.HasPrefix(va.Name, "makeslice:") || strings.HasPrefix(va.Name, "makemap:") {
+				return nil
+			}
 		}
 		if ta := v.SingleAtom(); ta != nil && ta.Name == "tuple" {
 			if idx < 0 || idx >= len(ta.Args) {
@@ -3483,7 +3501,7 @@ func (b *B) fullScanDown(rule, construct, where string, lfc *FC, hdr *ssa.BasicB
 		b.R.Fail(rule, construct, where, "the descending loop runs while "+clip(cond.String(), 120)+", not while 0 <= index: not every element is visited")
 		return false
 	}
-	if msg := b.leftEarly(lfc, l, guard); msg != "" {
+	if msg := b.leftEarly(lfc, l, guard); msg != "" && !b.earlyExitsOK {
 		b.R.Fail(rule, construct, where, msg)
 		return false
 	}
